@@ -1,7 +1,7 @@
 import Exetera.Model.Basic
 import Exetera.Gen.CsvConstants
 /-!
-  Model of the CSV reader (with the fixes D26, NC05a, D27 applied — see fixes/):
+  Model of the CSV reader (with the fixes D26, NC05a, NC05b, D27 applied — see fixes/):
 
     exetera/core/csv_reader_speedup.py   fast_csv_reader (the byte-level FSM, `@exetera_njit`)          → `fastCsvReader`
                                          read_file_using_fast_csv_reader (re-entrant window driver)     → `readFile`
@@ -380,9 +380,9 @@ def fieldsToUse (names : List String) (incl excl : Option (List String)) : List 
   | none => a
   | some e => a.filter (fun k => !e.contains k)
 
-/-- `column_offsets[i+1] = column_offsets[i] + field_size * chunk_row_size` -/
+/-- `column_offsets[i+1] = column_offsets[i] + max(field_size, 1) * chunk_row_size` (fix NC05b: never a zero budget) -/
 def columnOffsets (sizes : List Nat) (crs : Nat) : List Nat :=
-  sizes.foldl (fun acc sz => acc ++ [acc.getLastD 0 + sz * crs]) [0]
+  sizes.foldl (fun acc sz => acc ++ [acc.getLastD 0 + max sz 1 * crs]) [0]
 
 structure Field where
   name : String
